@@ -3,7 +3,7 @@
 
    norm_sound          normalisation does not change what a term denotes (uses the rules of
                        C02_rules.v: constant folding = eval_binop, add-zero / mul-one on typed values)
-   check_block_sound   check_block c f f' rho l l' outs = true, the "before" list runs to (e1, s1)
+   check_block_sound   check_block c f tl f' rho l l' outs = true, the "before" list runs to (e1, s1)
                        => the "after" list runs to (e1', s1) with the SAME state, and every pair of
                        references in outs reads equal values.
    Hypotheses: cfg_ok (pointer size >= 0), env_typed (every value of the initial environment is in
@@ -19,12 +19,13 @@ Section Sound.
   Variable f f' : func.
   Variable e0 : env.
   Variable args : list value.
+  Variable tl : bool.
   Hypothesis Hc : cfg_ok c.
 
   Definition env_typed : Prop :=
     forall r t b s v, ref_ty f r = Some t -> int_shape c t = Some (b, s) ->
       eval_ref m ge false e0 args r = ODone v -> exists z, v = Vint z /\ wrap_bits b s z = z.
-  Hypothesis Hty : env_typed.
+  Hypothesis Hty : tl = true -> env_typed.
 
   Notation den := (den c m ge e0 args).
 
@@ -42,13 +43,14 @@ Section Sound.
   Qed.
 
   Lemma typed_head_range res x t b s v :
-    typed_head f x t = true -> int_shape c t = Some (b, s) -> den res x = ODone v ->
+    typed_head f tl x t = true -> int_shape c t = Some (b, s) -> den res x = ODone v ->
     exists z, v = Vint z /\ wrap_bits b s z = z.
   Proof.
     intros Hh Hs Hd. pose proof (int_shape_bits _ _ _ _ Hc Hs) as Hb.
     destruct x; simpl in Hh; try discriminate.
-    - (* leaf *) destruct (ref_ty f r) eqn:Er; [|discriminate].
-      apply ty_eqb_spec in Hh. subst. eapply Hty; eassumption.
+    - (* leaf *) apply Bool.andb_true_iff in Hh. destruct Hh as [Htl Hh].
+      pose proof (Hty Htl) as Hty'. destruct (ref_ty f r) eqn:Er; [|discriminate].
+      apply ty_eqb_spec in Hh. subst t0. eapply Hty'; eassumption.
     - (* const *) destruct k; try discriminate. apply ty_eqb_spec in Hh. subst.
       simpl in Hd. unfold eval_const, wrap_ty in Hd. rewrite Hs in Hd. inversion Hd; subst.
       eexists. split; [reflexivity|]. apply wrap_bits_idem. assumption.
@@ -71,7 +73,7 @@ Section Sound.
 
   (* reading a typed term as an integer *)
   Lemma typed_as_int res x t :
-    typed_head f x t = true -> is_shape c t = true ->
+    typed_head f tl x t = true -> is_shape c t = true ->
     forall b s, int_shape c t = Some (b, s) ->
     (exists z, den res x = ODone (Vint z) /\ wrap_bits b s z = z /\ as_int (den res x) = ODone z)
     \/ (forall v, den res x <> ODone v).
@@ -99,7 +101,7 @@ Section Sound.
   (* x op 0 / 1 where the other operand is a typed value *)
   Lemma ident_r res t o a b0 k :
     (forall bb s x, int_shape c t = Some (bb, s) -> wrap_bits bb s x = x -> eval_binop c t o x k = ODone x) ->
-    cval c b0 = Some k -> typed_head f a t = true -> is_shape c t = true ->
+    cval c b0 = Some k -> typed_head f tl a t = true -> is_shape c t = true ->
     den res (SBin t o a b0) = den res a.
   Proof.
     intros Hrule Hk Hh Hsh. destruct (is_shape_some _ Hsh) as (bb & s & Hs).
@@ -110,7 +112,7 @@ Section Sound.
   Qed.
   Lemma ident_l res t o a b0 k :
     (forall bb s x, int_shape c t = Some (bb, s) -> wrap_bits bb s x = x -> eval_binop c t o k x = ODone x) ->
-    cval c a = Some k -> typed_head f b0 t = true -> is_shape c t = true ->
+    cval c a = Some k -> typed_head f tl b0 t = true -> is_shape c t = true ->
     den res (SBin t o a b0) = den res b0.
   Proof.
     intros Hrule Hk Hh Hsh. destruct (is_shape_some _ Hsh) as (bb & s & Hs).
@@ -126,7 +128,37 @@ Section Sound.
     destruct (ty_is_float t); discriminate.
   Qed.
 
-  Lemma simp_bin_sound res t o a b : den res (simp_bin c f t o a b) = den res (SBin t o a b).
+  Lemma chain_bin_sound res t o a b : den res (chain_bin c t o a b) = den res (SBin t o a b).
+  Proof.
+    unfold chain_bin. destruct a as [| | |t1 o1 y c1| | | |]; try reflexivity.
+    destruct (cval c b) as [k2|] eqn:Eb; try reflexivity.
+    destruct (cval c c1) as [k1|] eqn:E1; try reflexivity.
+    destruct (wrap_ty c t (k1 + k2)) as [k|] eqn:Ew; try reflexivity.
+    destruct (ty_eqb t1 t && dec2b binop_eq_dec o1 o &&
+              (dec2b binop_eq_dec o Add || dec2b binop_eq_dec o Sub)) eqn:Ec; try reflexivity.
+    apply Bool.andb_true_iff in Ec. destruct Ec as [Ec Eo]. apply Bool.andb_true_iff in Ec.
+    destruct Ec as [Et Eo1]. apply ty_eqb_spec in Et. apply dec2b_spec in Eo1. subst t1 o1.
+    assert (Hs : exists bb s, int_shape c t = Some (bb, s) /\ k = wrap_bits bb s (k1 + k2)).
+    { unfold wrap_ty in Ew. destruct (int_shape c t) as [[bb s]|]; [|discriminate].
+      inversion Ew. eauto. }
+    destruct Hs as (bb & s & Hs & Hk).
+    rewrite !bin_unfold. rewrite (cval_den res _ _ E1), (cval_den res _ _ Eb).
+    assert (Hkc : den res (SConst t (CInt k)) = ODone (Vint k)).
+    { simpl. unfold eval_const. rewrite (wrap_ty_idem _ _ _ Ew). reflexivity. }
+    rewrite Hkc. destruct (as_int (den res y)) as [yv| | | |]; try reflexivity.
+    cbn [obind as_int].
+    apply Bool.orb_true_iff in Eo. destruct Eo as [Eo|Eo]; apply dec2b_spec in Eo; subst o.
+    - assert (Hr : eval_binop c t Add yv k1 = ODone (wrap_bits bb s (yv + k1))).
+      { unfold eval_binop. rewrite Hs. reflexivity. }
+      rewrite Hr. cbn [obind as_int].
+      rewrite (c02_rule_chain_add_sound _ _ _ _ _ _ k2 _ Hc Hs Hr), <- Hk. reflexivity.
+    - assert (Hr : eval_binop c t Sub yv k1 = ODone (wrap_bits bb s (yv - k1))).
+      { unfold eval_binop. rewrite Hs. reflexivity. }
+      rewrite Hr. cbn [obind as_int].
+      rewrite (c02_rule_chain_sub_sound _ _ _ _ _ _ k2 _ Hc Hs Hr), <- Hk. reflexivity.
+  Qed.
+
+  Lemma simp_bin_sound res t o a b : den res (simp_bin c f tl t o a b) = den res (SBin t o a b).
   Proof.
     unfold simp_bin.
     destruct (cval c a) as [x|] eqn:Ea; destruct (cval c b) as [y|] eqn:Eb.
@@ -135,27 +167,26 @@ Section Sound.
       rewrite bin_unfold, (cval_den res _ _ Ea), (cval_den res _ _ Eb). simpl. rewrite Ev. simpl.
       destruct (eval_binop_shape _ _ _ _ _ Ev) as (bb & s & Hs).
       exact (c02_rule_constfold_sound _ _ _ _ _ _ _ _ Hc Hs Ev).
-    - destruct o; try reflexivity.
-      destruct (zeqb (Some x) 0 && typed_head f b t && is_shape c t) eqn:E2;
-        [|simpl; rewrite ?Bool.andb_false_r; reflexivity].
+    - destruct o; try reflexivity; try apply chain_bin_sound.
       simpl (zeqb None 0). cbn [andb].
+      destruct (zeqb (Some x) 0 && typed_head f tl b t && is_shape c t) eqn:E2; [|apply chain_bin_sound].
       apply Bool.andb_true_iff in E2. destruct E2 as [E2 E3]. apply Bool.andb_true_iff in E2.
       destruct E2 as [E1 E2]. apply zeqb_some in E1. inversion E1; subst.
       symmetry. eapply ident_l; try eassumption. intros. eapply c02_rule_addzero_l_sound; eassumption.
-    - destruct o; try reflexivity.
-      + destruct (zeqb (Some y) 0 && typed_head f a t && is_shape c t) eqn:E2.
+    - destruct o; try reflexivity; try apply chain_bin_sound.
+      + destruct (zeqb (Some y) 0 && typed_head f tl a t && is_shape c t) eqn:E2.
         * apply Bool.andb_true_iff in E2. destruct E2 as [E2 E3]. apply Bool.andb_true_iff in E2.
           destruct E2 as [E1 E2]. apply zeqb_some in E1. inversion E1; subst.
           symmetry. eapply ident_r; try eassumption. intros. eapply c02_rule_addzero_r_sound; eassumption.
-        * reflexivity.
-      + destruct (zeqb (Some y) 1 && typed_head f a t && is_shape c t) eqn:E2; [|reflexivity].
+        * simpl (zeqb None 0). cbn [andb]. apply chain_bin_sound.
+      + destruct (zeqb (Some y) 1 && typed_head f tl a t && is_shape c t) eqn:E2; [|reflexivity].
         apply Bool.andb_true_iff in E2. destruct E2 as [E2 E3]. apply Bool.andb_true_iff in E2.
         destruct E2 as [E1 E2]. apply zeqb_some in E1. inversion E1; subst.
         symmetry. eapply ident_r; try eassumption. intros. eapply c02_rule_mulone_sound; eassumption.
-    - destruct o; reflexivity.
+    - destruct o; try reflexivity; apply chain_bin_sound.
   Qed.
 
-  Theorem norm_sound : forall res x, den res (norm c f x) = den res x.
+  Theorem norm_sound : forall res x, den res (norm c f tl x) = den res x.
   Proof.
     intros res. induction x; try reflexivity.
     - (* const *) simpl. destruct k; try reflexivity.
@@ -164,7 +195,7 @@ Section Sound.
     - (* bin *) simpl norm. rewrite simp_bin_sound, !bin_unfold, IHx1, IHx2. reflexivity.
     - (* un *) simpl. rewrite IHx. reflexivity.
     - (* cast *) simpl norm. cbv zeta.
-      destruct (cval c (norm c f x)) eqn:Ecv.
+      destruct (cval c (norm c f tl x)) eqn:Ecv.
       + destruct (wrap_ty c t z) eqn:Ew.
         * simpl. rewrite <- IHx, (cval_den res _ _ Ecv). simpl. rewrite Ew.
           unfold eval_const. rewrite (wrap_ty_idem _ _ _ Ew). reflexivity.
@@ -173,7 +204,7 @@ Section Sound.
     - (* addr *) simpl. rewrite IHx. reflexivity.
   Qed.
 
-  Lemma teq_den res x y : teq c f x y = true -> den res x = den res y.
+  Lemma teq_den res x y : teq c f tl x y = true -> den res x = den res y.
   Proof.
     unfold teq, sexp_eqb. intros H. apply dec2b_spec in H.
     rewrite <- (norm_sound res x), <- (norm_sound res y), H. reflexivity.
@@ -328,7 +359,7 @@ Section Sound.
   Proof. intros H. simpl. rewrite Pos.eqb_refl. destruct y; congruence. Qed.
 
   Lemma invd_push res D x y : InvD res D -> scoped (List.length res) x -> den res x = ODone y ->
-    InvD res (norm c f x :: D).
+    InvD res (norm c f tl x :: D).
   Proof.
     intros HD Hs Hd d [<-|Hin] r2; [|apply HD; exact Hin].
     exists y. rewrite norm_sound, den_app by assumption. exact Hd.
@@ -356,7 +387,7 @@ Section Sound.
     end.
 
   Lemma absorb_sound res : forall l sg D E s sg1 D1 r e1 s1,
-    absorb c f sg D l = (sg1, D1, r) ->
+    absorb c f tl sg D l = (sg1, D1, r) ->
     Inv e0 res sg E -> InvD res D ->
     run_simple c m ge f args l E s = ODone (e1, s1) ->
     exists E2, run_simple c m ge f args r E2 s = ODone (e1, s1) /\ Inv e0 res sg1 E2 /\ InvD res D1.
@@ -387,7 +418,7 @@ Section Sound.
         * inversion H; subst. exists E. split; [assumption|split; assumption].
   Qed.
 
-  Lemma defined_den res D x : InvD res D -> defined_in c f D x = true -> exists y, den res x = ODone y.
+  Lemma defined_den res D x : InvD res D -> defined_in c f tl D x = true -> exists y, den res x = ODone y.
   Proof.
     unfold defined_in. intros HD H. apply Bool.orb_true_iff in H. destruct H as [H|H].
     - destruct x; simpl in H; try discriminate. simpl. destruct (eval_const c t k); try discriminate. eauto.
@@ -396,15 +427,15 @@ Section Sound.
   Qed.
 
   Ltac absorb'_step IH H HI HD Hst Hsc :=
-    match type of H with (if defined_in _ _ ?D ?x then _ else _) = _ =>
-      destruct (defined_in c f D x) eqn:Edf; [|discriminate H];
+    match type of H with (if defined_in _ _ _ ?D ?x then _ else _) = _ =>
+      destruct (defined_in c f tl D x) eqn:Edf; [|discriminate H];
       destruct (defined_den _ _ _ HD Edf) as [y Ed];
       unfold steps_as in Hst; cbn [run_simple]; rewrite Hst, Ed; cbn [obind];
       eapply IH; [exact H | eapply inv_push_pure; [exact HI|exact Hsc|reflexivity|exact Ed]]
     end.
 
   Lemma absorb'_sound res D : InvD res D -> forall l sg E s sg1 r,
-    absorb' c f rho D sg l = Some (sg1, r) -> Inv e0' res sg E ->
+    absorb' c f tl rho D sg l = Some (sg1, r) -> Inv e0' res sg E ->
     exists E2, run_simple c m ge f' args l E s = run_simple c m ge f' args r E2 s /\ Inv e0' res sg1 E2.
   Proof.
     intros HD. induction l as [|i l IH]; intros sg E s sg1 r H HI.
@@ -446,7 +477,7 @@ Section Sound.
   Qed.
 
   Lemma teq'_sound res sg sg' E E' r r' :
-    Inv e0 res sg E -> Inv e0' res sg' E' -> teq' c f rho sg sg' r r' = true ->
+    Inv e0 res sg E -> Inv e0' res sg' E' -> teq' c f tl rho sg sg' r r' = true ->
     eval_ref m ge false E' args r' = eval_ref m ge false E args r.
   Proof.
     unfold teq'. intros HI HI' H. destruct (sym' rho sg' r') eqn:Es; [|discriminate].
@@ -464,7 +495,7 @@ Section Sound.
 
   Lemma match_effect_sound res sg sg' E E' s i i' r e1 s1 :
     Inv e0 res sg E -> Inv e0' res sg' E' ->
-    match_effect c f f' rho sg sg' i i' = Some r ->
+    match_effect c f tl f' rho sg sg' i i' = Some r ->
     step_simple c m ge f args E s i = ODone (e1, s1) ->
     match r with
     | Some (v, v') => exists y, y <> Vundef /\ e1 = (v, y) :: E /\
@@ -475,7 +506,7 @@ Section Sound.
     intros HI HI' Hm Hst.
     destruct i; simpl in Hm; try discriminate Hm; destruct i'; try discriminate Hm.
     - (* load *)
-      destruct (ty_eqb t t0 && teq' c f rho sg sg' addr addr0) eqn:Ec; [|discriminate Hm].
+      destruct (ty_eqb t t0 && teq' c f tl rho sg sg' addr addr0) eqn:Ec; [|discriminate Hm].
       inversion Hm; subst; clear Hm. apply Bool.andb_true_iff in Ec. destruct Ec as [Et Ea].
       apply ty_eqb_spec in Et. subst t0. pose proof (teq'_sound _ _ _ _ _ _ _ HI HI' Ea) as Hr.
       cbn [step_simple] in *. rewrite eval_int_as in *. rewrite Hr.
@@ -483,8 +514,8 @@ Section Sound.
       destruct (load_val c t s a) eqn:El; cbn [obind] in *; try discriminate Hst.
       inversion Hst; subst. exists a0. split; [eapply load_not_undef; eassumption|]. split; reflexivity.
     - (* store *)
-      destruct (opt_ty_eqb (ref_ty f x) (ref_ty f' x0) && teq' c f rho sg sg' x x0 &&
-                teq' c f rho sg sg' addr addr0) eqn:Ec; [|discriminate Hm].
+      destruct (opt_ty_eqb (ref_ty f x) (ref_ty f' x0) && teq' c f tl rho sg sg' x x0 &&
+                teq' c f tl rho sg sg' addr addr0) eqn:Ec; [|discriminate Hm].
       inversion Hm; subst; clear Hm. apply Bool.andb_true_iff in Ec. destruct Ec as [Ec Ea].
       apply Bool.andb_true_iff in Ec. destruct Ec as [Et Ex].
       pose proof (teq'_sound _ _ _ _ _ _ _ HI HI' Ea) as Hra.
@@ -509,7 +540,7 @@ Section Sound.
       cbn [step_simple] in *. destruct (do_alloc s data0 1) as [a s']. inversion Hst; subst.
       eexists. split; [|split; reflexivity]. discriminate.
     - (* copyblob *)
-      destruct ((amount =? amount0) && teq' c f rho sg sg' dst dst0 && teq' c f rho sg sg' src src0) eqn:Ec;
+      destruct ((amount =? amount0) && teq' c f tl rho sg sg' dst dst0 && teq' c f tl rho sg sg' src src0) eqn:Ec;
         [|discriminate Hm].
       inversion Hm; subst; clear Hm. apply Bool.andb_true_iff in Ec. destruct Ec as [Ec Es].
       apply Bool.andb_true_iff in Ec. destruct Ec as [En Ed]. apply Z.eqb_eq in En. subst.
@@ -540,7 +571,7 @@ Section Sound.
   Qed.
 
   Lemma check_sound : forall fuel res sg sg' D k l l' outs E E' s e1 s1,
-    check c f f' fuel rho sg sg' D k l l' outs = true ->
+    check c f tl f' fuel rho sg sg' D k l l' outs = true ->
     k = List.length res -> Inv e0 res sg E -> Inv e0' res sg' E' -> InvD res D ->
     run_simple c m ge f args l E s = ODone (e1, s1) ->
     exists e1', run_simple c m ge f' args l' E' s = ODone (e1', s1) /\
@@ -549,8 +580,8 @@ Section Sound.
     induction fuel as [|n IH]; intros res sg sg' D k l l' outs E E' s e1 s1 H Hk HI HI' HD Hrun;
       [discriminate H|].
     cbn [check] in H.
-    destruct (absorb c f sg D l) as [[sg1 D1] r] eqn:Eab.
-    destruct (absorb' c f rho D1 sg' l') as [[sg1' r']|] eqn:Eab'; [|discriminate H].
+    destruct (absorb c f tl sg D l) as [[sg1 D1] r] eqn:Eab.
+    destruct (absorb' c f tl rho D1 sg' l') as [[sg1' r']|] eqn:Eab'; [|discriminate H].
     destruct (absorb_sound res _ _ _ _ s _ _ _ _ _ Eab HI HD Hrun) as (E2 & Hrun2 & HI2 & HD2).
     destruct (absorb'_sound res D1 HD2 _ _ _ s _ _ Eab' HI') as (E2' & Hrun2' & HI2').
     rewrite Hrun2'.
@@ -558,7 +589,7 @@ Section Sound.
     - cbn [run_simple] in *. inversion Hrun2; subst. exists E2'. split; [reflexivity|].
       intros r r' Hin. rewrite forallb_forall in H. specialize (H _ Hin). cbn [fst snd] in H.
       eapply teq'_sound; eassumption.
-    - destruct (match_effect c f f' rho sg1 sg1' i i') as [[[v v']|]|] eqn:Em; try discriminate H.
+    - destruct (match_effect c f tl f' rho sg1 sg1' i i') as [[[v v']|]|] eqn:Em; try discriminate H.
       + cbn [run_simple] in Hrun2.
         destruct (step_simple c m ge f args E2 s i) as [[ea sa]| | | |] eqn:Est; cbn [obind] in Hrun2;
           try discriminate Hrun2.
@@ -579,7 +610,7 @@ Section Sound.
   Qed.
 
   Theorem check_block_sound : forall l l' outs s e1 s1,
-    check_block c f f' rho l l' outs = true ->
+    check_block c f tl f' rho l l' outs = true ->
     run_simple c m ge f args l e0 s = ODone (e1, s1) ->
     exists e1', run_simple c m ge f' args l' e0' s = ODone (e1', s1) /\
       forall r r', In (r, r') outs -> eval_ref m ge false e1' args r' = eval_ref m ge false e1 args r.
